@@ -107,8 +107,84 @@ def lemma_kary(eb, sb, K, timeout_s=900):
             break
         if st == "unknown" and status == "holds":
             status = "unknown"
+    replayable = (eb, sb) == (11, 53)
+    if status == "violated" and not replayable:
+        w64 = binary64_witness(K, (witness or {}).get("lo"), (witness or {}).get("hi"))
+        if w64 is not None:
+            witness = dict(w64, obligation=witness["obligation"], reduced_precision_model={k: witness.get(k) for k in ("lo", "hi")},
+                           note="solver: not a theorem in binary(%d,%d); binary64 box located by concrete search and confirmed on the unshimmed code" % (eb, sb))
+            replayable = True
     return {"lemma": "L-kary binary(%d,%d) K=%d" % (eb, sb, K), "status": status, "precondition": pre, "term_boundary_1": str(doms[0][1].e)[:200], "obligations": res,
-            "queries": S.queries, "solver_s": round(S.solver_s, 2), "wall_s": round(time.time() - t0, 2), "witness": witness, "replayable": (eb, sb) == (11, 53)}
+            "queries": S.queries, "solver_s": round(S.solver_s, 2), "wall_s": round(time.time() - t0, 2), "witness": witness, "replayable": replayable}
+
+
+def kary_concrete_failures(lo, hi, K):
+    """the obligations of L-kary evaluated on plain doubles by the real (unshimmed) KaryPartition; None if the
+    precondition of the lemma does not hold for this box"""
+    if not (math.isfinite(lo) and math.isfinite(hi) and lo < hi and abs(lo) <= 2.0 ** 1022 and abs(hi) <= 2.0 ** 1022):
+        return None
+    step = (hi - lo) / K
+    if not (math.isfinite(step) and abs(step) >= 2.0 ** -1022):
+        return None
+    base = mods()["KaryPartition"].KaryPartition
+    with warnings.catch_warnings():
+        warnings.simplefilter("ignore")
+        part = base(domain=[[lo, hi]], K=K)
+        part.make_children(part.get_root(), newlayer=True)
+    doms = [[float(c.get_domain()[0][0]), float(c.get_domain()[0][1])] for c in part.get_root().get_children()]
+    bad = []
+    if len(doms) != K:
+        bad.append("number of children = %d" % len(doms))
+        return bad
+    if doms[0][0] != lo:
+        bad.append("first boundary %r is not lo %r" % (doms[0][0], lo))
+    if doms[-1][1] != hi:
+        bad.append("last boundary %r is not hi %r" % (doms[-1][1], hi))
+    for j in range(K):
+        if not doms[j][0] <= doms[j][1]:
+            bad.append("boundary %d > boundary %d" % (j, j + 1))
+        if j + 1 < K and doms[j][1] != doms[j + 1][0]:
+            bad.append("children %d,%d do not share their face: %r vs %r" % (j, j + 1, doms[j][1], doms[j + 1][0]))
+    return bad
+
+
+def binary64_witness(K, lo0, hi0, budget=60000):
+    """a reduced-precision counterexample (lo0, hi0) says the obligation is not a theorem of IEEE arithmetic for this code;
+    to report it against the binary64 library a binary64 box on which the real code fails is needed.  Candidates: the model
+    itself (its values are doubles), its scalings and one-ulp neighbours, then a deterministic bank of boxes (integers,
+    decimals, boxes straddling 0, random doubles).  Only a box on which the unshimmed code fails is returned."""
+    import random as _random
+    rnd = _random.Random(20240229)
+    cands = []
+    if lo0 is not None and hi0 is not None and math.isfinite(lo0) and math.isfinite(hi0):
+        for sc in (1.0, 2.0, 0.5, 3.0, 10.0, 0.1, 1e3, 1e-3):
+            cands.append((lo0 * sc, hi0 * sc))
+            cands.append((math.nextafter(lo0 * sc, -math.inf), hi0 * sc))
+            cands.append((lo0 * sc, math.nextafter(hi0 * sc, math.inf)))
+    for a in (-3, -1, 0, 1, 2, 5, 10, -32.768, -5.12, -600, 0.1, 0.3):
+        for w in (1, 2, 3, 4, 7, 10, 0.1, 0.7, 1.3, 65.536, 1200):
+            cands.append((float(a), float(a) + w))
+    while len(cands) < budget:
+        kind = rnd.randrange(4)
+        if kind == 0:
+            a = rnd.uniform(-10, 10); b = a + rnd.uniform(1e-3, 20)
+        elif kind == 1:
+            a = rnd.uniform(-1, 1) * 10 ** rnd.randint(-6, 6); b = a + abs(a) * rnd.uniform(1e-6, 3) + 1e-300
+        elif kind == 2:
+            a = -rnd.uniform(0, 1) * 10 ** rnd.randint(-3, 3); b = rnd.uniform(0, 1) * 10 ** rnd.randint(-3, 3)
+        else:
+            a = float(rnd.randint(-1000, 1000)); b = a + rnd.randint(1, 1000) / rnd.choice((1, 2, 3, 7, 10, 100))
+        cands.append((a, b))
+    tried = 0
+    for lo, hi in cands:
+        try:
+            bad = kary_concrete_failures(lo, hi, K)
+        except Exception:  # noqa
+            continue
+        tried += 1
+        if bad:
+            return {"lo": lo, "hi": hi, "K": K, "failures": bad[:3], "boxes_tried": tried}
+    return None
 
 
 def replay(result):
@@ -117,6 +193,8 @@ def replay(result):
     if "lo" not in w:
         return False
     lo, hi = w["lo"], w["hi"]
+    if "K" in w:
+        return bool(kary_concrete_failures(lo, hi, w["K"]))
     m = mods()
     node = m["Node"].P_node(0, 1, None, [[lo, hi]])
     mid = node.get_cpoint()[0]
